@@ -54,37 +54,67 @@ Qed.
 Definition outs_ok (o : list (option (list bytes))) : Prop :=
   forall segs, In (Some segs) o -> forallb okseg segs = true.
 
-Lemma step_ok : forall access wd c,
-  forallb okseg wd = true ->
-  forallb okseg (fst (step access wd c)) = true /\ outs_ok (snd (step access wd c)).
+Lemma forallb_removelast : forall (f : bytes -> bool) l, forallb f l = true -> forallb f (removelast l) = true.
 Proof.
-  intros access wd c Hwd. destruct c as [p| |p|a b]; cbn [step].
-  - destruct (toSegments wd p) as [segs|] eqn:E; cbn.
-    + pose proof (toSegments_ok wd p segs Hwd E) as Hs. split; [now destruct (access segs)|].
-      intros x [X|[]]. inversion X; now subst.
-    + split; [assumption|]. intros x [X|[]]. discriminate.
-  - destruct (toSegments wd dotdot) as [segs|] eqn:E; cbn.
-    + pose proof (toSegments_ok wd _ segs Hwd E) as Hs. split; [now destruct (access segs)|].
-      intros x [X|[]]. inversion X; now subst.
-    + split; [assumption|]. intros x [X|[]]. discriminate.
-  - cbn. split; [assumption|]. intros x [X|[]]. now apply toSegments_ok with wd p.
-  - destruct (toSegments wd a) as [x|] eqn:Ea; [destruct (toSegments wd b) as [y|] eqn:Eb|]; cbn.
-    + split; [assumption|]. intros z [Z|[Z|[]]]; inversion Z; subst;
-        [now apply toSegments_ok with wd a | now apply toSegments_ok with wd b].
-    + split; [assumption|]. intros z [Z|[]]. discriminate.
-    + split; [assumption|]. intros z [Z|[]]. discriminate.
+  induction l as [|x l IH]; intro H; [reflexivity|]. cbn in H. apply andb_true_iff in H as [H1 H2].
+  destruct l as [|y l']; [reflexivity|]. cbn [removelast]. cbn. rewrite H1. now apply IH.
 Qed.
 
-Lemma run_ok : forall access cs wd,
-  forallb okseg wd = true ->
-  forallb okseg (fst (run access wd cs)) = true /\ Forall outs_ok (snd (run access wd cs)).
+Lemma nlst_target_ok : forall segs, forallb okseg segs = true -> forallb okseg (nlst_target segs) = true.
 Proof.
-  induction cs as [|c cs IH]; intros wd Hwd; cbn [run].
+  intros segs H. unfold nlst_target. destruct (rev segs) as [|l r]; [assumption|].
+  destruct (is_glob l); [now apply forallb_removelast | assumption].
+Qed.
+
+Lemma outs_single : forall o, (forall segs, o = Some segs -> forallb okseg segs = true) -> outs_ok [o].
+Proof. intros o H segs [E|[]]. now apply H. Qed.
+
+Lemma cwd_to_ok : forall access wd p,
+  forallb okseg wd = true ->
+  forallb okseg (fst (cwd_to access wd p)) = true /\ outs_ok (snd (cwd_to access wd p)).
+Proof.
+  intros access wd p Hwd. unfold cwd_to. destruct (toSegments wd p) as [segs|] eqn:E; cbn.
+  - pose proof (toSegments_ok wd p segs Hwd E) as Hs. split; [now destruct (access segs)|].
+    apply outs_single. intros x X. inversion X; now subst.
+  - split; [assumption|]. apply outs_single. discriminate.
+Qed.
+
+Lemma step_ok : forall access st c,
+  forallb okseg (fst st) = true ->
+  forallb okseg (fst (fst (step access st c))) = true /\ outs_ok (snd (step access st c)).
+Proof.
+  intros access [wd pending] c Hwd. cbn [fst] in Hwd. unfold step.
+  destruct pending as [a|].
+  - destruct c; try (cbn; split; [assumption | apply outs_single; discriminate]).
+    destruct (toSegments wd a) as [x|] eqn:Ea; [destruct (toSegments wd b) as [y|] eqn:Eb|]; cbn.
+    + split; [assumption|]. intros z [Z|[Z|[]]]; inversion Z; subst;
+        [now apply toSegments_ok with wd a | now apply toSegments_ok with wd b].
+    + split; [assumption | apply outs_single; discriminate].
+    + split; [assumption | apply outs_single; discriminate].
+  - destruct c.
+    + destruct (cwd_to access wd p) as [wd' o] eqn:E. pose proof (cwd_to_ok access wd p Hwd) as H.
+      rewrite E in H. exact H.
+    + destruct (cwd_to access wd dotdot) as [wd' o] eqn:E. pose proof (cwd_to_ok access wd dotdot Hwd) as H.
+      rewrite E in H. exact H.
+    + cbn. split; [assumption|]. apply outs_single. intros x X. now apply toSegments_ok with wd p.
+    + cbn. split; [assumption|]. apply outs_single. intros x X. now apply toSegments_ok with wd (list_arg p).
+    + cbn. split; [assumption|]. apply outs_single. intros x X.
+      destruct (toSegments wd p) as [segs|] eqn:E; [|discriminate]. cbn in X. inversion X; subst.
+      apply nlst_target_ok. now apply toSegments_ok with wd p.
+    + cbn. split; [assumption | apply outs_single; discriminate].
+    + cbn. split; [assumption | apply outs_single; discriminate].
+Qed.
+
+Lemma run_ok : forall access cs st,
+  forallb okseg (fst st) = true ->
+  forallb okseg (fst (fst (run access st cs))) = true /\ Forall outs_ok (snd (run access st cs)).
+Proof.
+  induction cs as [|c cs IH]; intros st Hwd; cbn [run].
   - split; [assumption | constructor].
-  - destruct (step access wd c) as [wd1 o] eqn:E1.
-    destruct (step_ok access wd c Hwd) as [S1 S2]. rewrite E1 in S1, S2. cbn in S1, S2.
-    destruct (run access wd1 cs) as [wd2 os] eqn:E2.
-    destruct (IH wd1 S1) as [R1 R2]. rewrite E2 in R1, R2. cbn in *. split; [assumption | now constructor].
+  - destruct (step access st c) as [st1 o] eqn:E1.
+    destruct (step_ok access st c Hwd) as [S1 S2]. rewrite E1 in S1, S2. cbn in S1, S2.
+    destruct (run access st1 cs) as [st2 os] eqn:E2.
+    destruct (IH st1 S1) as [R1 R2]. rewrite E2 in R1, R2. cbn in *. split; [assumption | now constructor].
 Qed.
 
 (** ---- FTPShell._path: descendant over clean segments is exactly root/segments ---- *)
@@ -155,19 +185,34 @@ Qed.
 (** the composition: whatever the client sent before, the next path argument resolves inside the root *)
 Lemma session_paths_inside_root : forall access cs p segs cwd s,
   isabs cwd = true ->
-  toSegments (fst (run access [] cs)) p = Some segs ->
+  toSegments (fst (fst (run access start cs))) p = Some segs ->
   exists r, descendant cwd (mk cwd s) segs = Some r
             /\ segments r = segments (mk cwd s) ++ segs
             /\ forallb okc (segments r) = true /\ normpath r = r.
 Proof.
   intros access cs p segs cwd s Hc H.
-  destruct (run_ok access cs [] eq_refl) as [Hwd _].
-  apply path_of_clean_segments; [assumption|]. now apply toSegments_ok with (fst (run access [] cs)) p.
+  destruct (run_ok access cs start eq_refl) as [Hwd _].
+  apply path_of_clean_segments; [assumption|]. now apply toSegments_ok with (fst (fst (run access start cs))) p.
+Qed.
+
+(** ... and so does everything the session itself handed to the shell (NLST's parent listing included) *)
+Lemma session_shell_calls_inside_root : forall access cs o segs cwd s,
+  isabs cwd = true ->
+  In o (snd (run access start cs)) -> In (Some segs) o ->
+  exists r, descendant cwd (mk cwd s) segs = Some r
+            /\ segments r = segments (mk cwd s) ++ segs
+            /\ forallb okc (segments r) = true /\ normpath r = r.
+Proof.
+  intros access cs o segs cwd s Hc Ho Hs.
+  destruct (run_ok access cs start eq_refl) as [_ HF].
+  rewrite Forall_forall in HF. apply path_of_clean_segments; [assumption|]. exact (HF o Ho segs Hs).
 Qed.
 
 Example ex_session :
   let a := [97]%N in let b := [98]%N in
   let access := fun segs => match segs with [x] => beq x a | [] => true | _ => false end in
-  run access [] [Cwd a; Op [46;46;47;46;46;47;98]%N; Cdup; Cdup; Op [47;97;47;47;46;47;98]%N]
-  = ([], [[Some [a]]; [None]; [Some []]; [None]; [Some [a; b]]]).
+  run access start [Cwd a; Op [46;46;47;46;46;47;98]%N; Nlst [98;46;99]%N; Rnfr b; Cwd [47]%N; Rnto [47;98]%N;
+                    Cdup; Cdup; Op [47;97;47;47;46;47;98]%N]
+  = (([], None), [[Some [a]]; [None]; [Some [a]]; [None]; [None]; [Some [a; b]; Some [b]]; [Some []]; [None];
+                  [Some [a; b]]]).
 Proof. vm_compute. reflexivity. Qed.
